@@ -14,6 +14,6 @@ PROFILE = dict(
     sizes=[2, 3, 4, 4, 5, 6, 8, 10, 16, 25],
     weights=dict(run=5, faulted=0.6, gwf_cancel=0.4, pool_restart=0.2, dry_run=0.5, status=0.5, start=3, finish=3, sched_cancel=1, purge=0.7, acct_flush=0.7,
                  modify_source=0.7, delete_output=0.7, touch_file=0.5, advance=0.5),
-    p_job_ok=0.5, spec_variety=True, p_hashing=0.3, p_huge=0.01,
+    p_nested=0.1, p_job_ok=0.5, spec_variety=True, p_hashing=0.3, p_huge=0.01,
 )
 make_scenario = make({"C02"}, PROFILE)
